@@ -1,11 +1,596 @@
 package c11
 
-import "verif/internal/ref9p"
+// Second variant: the Unix file server (Ufs) on a scratch tree. After the
+// victim is gone, no descriptor of this process may point into the exported
+// tree (the bystander holds no file open).
 
+import (
+	"errors"
+	"fmt"
+	"os"
+	"path/filepath"
+	"sort"
+	"strings"
+	"syscall"
+	"testing"
+	"time"
+
+	"github.com/rminnich/go9p"
+	"pgregory.net/rapid"
+	"verif/internal/hx"
+	"verif/internal/rawc"
+	"verif/internal/ref9p"
+	"verif/internal/ufsrv"
+	"verif/internal/xport"
+)
+
+// UOp is one request of the victim against Ufs. Fid 0 is the attach point.
 type UOp struct {
-	Kind string `json:"kind"`
+	Kind   string   `json:"kind"` // attach walk open create read clunk remove | fifo late (executing at the cut)
+	Fid    uint32   `json:"fid"`
+	Newfid uint32   `json:"newfid,omitempty"`
+	Names  []string `json:"names,omitempty"`
+	Mode   uint8    `json:"mode,omitempty"`
+	Name   string   `json:"name,omitempty"`
+	Perm   uint32   `json:"perm,omitempty"`
+	Count  uint32   `json:"count,omitempty"`
 }
 
-func (o *UOp) msg() *ref9p.Msg { return &ref9p.Msg{Type: ref9p.Tstat} }
+func (o *UOp) msg() *ref9p.Msg {
+	switch o.Kind {
+	case "attach":
+		return &ref9p.Msg{Type: ref9p.Tattach, Fid: o.Fid, Afid: ref9p.NOFID, Uname: "root", Aname: "", Nuname: 0}
+	case "walk":
+		return &ref9p.Msg{Type: ref9p.Twalk, Fid: o.Fid, Newfid: o.Newfid, Wname: o.Names}
+	case "open", "fifo", "late":
+		return &ref9p.Msg{Type: ref9p.Topen, Fid: o.Fid, Mode: o.Mode}
+	case "create":
+		return &ref9p.Msg{Type: ref9p.Tcreate, Fid: o.Fid, Name: o.Name, Perm: o.Perm, Mode: o.Mode}
+	case "read":
+		return &ref9p.Msg{Type: ref9p.Tread, Fid: o.Fid, Offset: 0, Count: o.Count}
+	case "clunk":
+		return &ref9p.Msg{Type: ref9p.Tclunk, Fid: o.Fid}
+	case "remove":
+		return &ref9p.Msg{Type: ref9p.Tremove, Fid: o.Fid}
+	}
+	return &ref9p.Msg{Type: ref9p.Tstat, Fid: o.Fid}
+}
 
-func runUfs(c *Case, res *result) error { return nil }
+var uDirs = []string{"d0", "d1", "d2"}
+var uFiles = []string{"a", "b", "c", "d0/f0", "d0/f1", "d0/f2", "d1/f0", "d1/f1", "d2/f0", "d2/f1"}
+var uFifos = []string{"p0", "p1"}
+
+func mkTree() (string, error) {
+	root, err := os.MkdirTemp("", "c11-ufs-")
+	if err != nil {
+		return "", err
+	}
+	root, _ = filepath.EvalSymlinks(root)
+	for _, d := range uDirs {
+		if err := os.Mkdir(filepath.Join(root, d), 0o755); err != nil {
+			return root, err
+		}
+	}
+	for _, f := range uFiles {
+		if err := os.WriteFile(filepath.Join(root, f), []byte("contents of "+f+"\n"), 0o644); err != nil {
+			return root, err
+		}
+	}
+	for _, p := range uFifos {
+		if err := syscall.Mkfifo(filepath.Join(root, p), 0o644); err != nil {
+			return root, err
+		}
+	}
+	return root, nil
+}
+
+// fdsInto lists the descriptors of this process that point into root.
+func fdsInto(root string) []string {
+	ents, err := os.ReadDir("/proc/self/fd")
+	if err != nil {
+		return []string{"harness: cannot read /proc/self/fd: " + err.Error()}
+	}
+	var out []string
+	for _, e := range ents {
+		t, err := os.Readlink("/proc/self/fd/" + e.Name())
+		if err != nil {
+			continue
+		}
+		t = strings.TrimSuffix(t, " (deleted)")
+		if t == root || strings.HasPrefix(t, root+"/") {
+			out = append(out, strings.TrimPrefix(t, root))
+		}
+	}
+	sort.Strings(out)
+	return out
+}
+
+func (b *bystander) setupUfs() error {
+	steps := []*ref9p.Msg{
+		{Type: ref9p.Tattach, Fid: 20, Afid: ref9p.NOFID, Uname: "root", Aname: "", Nuname: 0},
+		{Type: ref9p.Twalk, Fid: 20, Newfid: 21, Wname: []string{"d0"}},
+		{Type: ref9p.Twalk, Fid: 20, Newfid: 22, Wname: []string{"a"}},
+	}
+	for _, m := range steps {
+		r, err := b.C.RPC(m)
+		if err != nil || r.Type != m.Type+1 {
+			return fmt.Errorf("bystander setup %s: %v %+v", ref9p.TypeName(m.Type), err, r)
+		}
+	}
+	return nil
+}
+
+func (b *bystander) probeUfs(when string) error {
+	want := map[uint32]string{21: "d0", 22: "a"}
+	for _, fid := range []uint32{20, 21, 22, 23} {
+		r, err := b.C.RPC(&ref9p.Msg{Type: ref9p.Tstat, Fid: fid})
+		if err != nil {
+			return fmt.Errorf("bystander disturbed (%s the victim's disconnect): Tstat fid %d: %v", when, fid, err)
+		}
+		if fid == 23 {
+			if r.Type != ref9p.Rerror {
+				return fmt.Errorf("bystander disturbed (%s): Tstat of its unknown fid 23 answered %s", when, ref9p.TypeName(r.Type))
+			}
+			continue
+		}
+		if r.Type != ref9p.Rstat {
+			return fmt.Errorf("bystander disturbed (%s the victim's disconnect): Tstat of its fid %d answered %s %q", when, fid, ref9p.TypeName(r.Type), r.Ename)
+		}
+		if n, ok := want[fid]; ok && r.Stat.Name != n {
+			return fmt.Errorf("bystander disturbed (%s): its fid %d now names %q, want %q", when, fid, r.Stat.Name, n)
+		}
+	}
+	return nil
+}
+
+type uflight struct {
+	op     *UOp
+	tag    uint16
+	who    string
+	fifo   string // path of the FIFO the open blocks on ("" for late)
+	parked bool
+}
+
+func runUfs(c *Case, res *result) (err error) {
+	root, err := mkTree()
+	if root != "" {
+		defer os.RemoveAll(root)
+	}
+	if err != nil {
+		return &hangError{"harness: scratch tree: " + err.Error()}
+	}
+	defer func() {
+		// never leave a server goroutine blocked in open(2) on a FIFO
+		for _, f := range uFifos {
+			if w, e := os.OpenFile(filepath.Join(root, f), os.O_WRONLY|syscall.O_NONBLOCK, 0); e == nil {
+				w.Close()
+			}
+		}
+	}()
+	k := newCtl()
+	uninstall := k.install()
+	defer uninstall()
+	ufsrv.Silence()
+
+	g0 := libGors()
+	u := new(go9p.Ufs)
+	u.Dotu, u.Id, u.Root, u.Msize, u.Maxpend, u.Log = true, "ufs", root, 8192, c.Maxpend, sharedLog
+	if !u.Start(u) {
+		return &hangError{"harness: Ufs.Start failed"}
+	}
+	dial := func(name string) *xport.End { return ufsrv.Conn(u, name) }
+	by, err := openBystander(dial, !c.Dotu, "root")
+	if err != nil {
+		return &hangError{err.Error()}
+	}
+	defer by.C.Close()
+	if err := by.setupUfs(); err != nil {
+		return &hangError{err.Error()}
+	}
+	if err := by.settle(g0); err != nil {
+		return err
+	}
+	g1 := libGors()
+
+	// split the ops: the history proper and the requests executing at the cut
+	var hist []UOp
+	var fl []*uflight
+	for i := range c.Ops {
+		switch c.Ops[i].Kind {
+		case "fifo", "late":
+			fl = append(fl, &uflight{op: &c.Ops[i]})
+		default:
+			hist = append(hist, c.Ops[i])
+		}
+	}
+	hc := *c
+	hc.Ops = hist
+	fr := hc.frames()
+	kf, p := locate(fr, c.Cut)
+	res.midFrame = p > 0
+	vid := "c11-vi/harness"
+	end := dial("c11-vi")
+	defer end.Close()
+	vc := rawc.New(end)
+	vc.Timeout = hangT
+	var waitTags []uint16 // pipelined requests: written, reply not awaited
+	if kf >= 1 {
+		ver := "9P2000"
+		if c.Dotu {
+			ver = "9P2000.u"
+		}
+		if r, err := vc.Version(8192, ver); err != nil || r.Type != ref9p.Rversion {
+			return &hangError{fmt.Sprintf("victim Tversion: %v", err)}
+		}
+		seqN := kf - 1 - c.Pipe
+		if seqN < 0 {
+			seqN = 0
+		}
+		for i := 0; i < seqN; i++ {
+			if _, err := vc.RPC(hist[i].msg()); err != nil {
+				return &hangError{fmt.Sprintf("before the cut, op %d (%s): %v", i, hist[i].Kind, err)}
+			}
+		}
+		res.openFds = len(fdsInto(root))
+		// requests that are executing when the connection is cut
+		for j, f := range fl {
+			m := f.op.msg()
+			f.tag = uint16(1000 + j)
+			m.Tag = f.tag
+			f.who = reqWho(vid, f.tag)
+			if f.op.Kind == "late" {
+				k.addHold(f.who, "process.enter", connWho(vid), "close.exit", lateTimeout)
+			}
+			if err := vc.Send(m); err != nil {
+				return &hangError{"harness: " + err.Error()}
+			}
+			if f.op.Kind == "late" {
+				if !k.wait(f.who, "process.enter", 1, hangT) {
+					return &hangError{"late request never reached process.enter"}
+				}
+				f.parked = true
+				continue
+			}
+			// fifo: wait until a goroutine sits in the open(2) below Ufs.Open,
+			// or the request was answered (fid unknown at this cut, not a FIFO …)
+			before := inUfsOpen()
+			ok := waitFor(hangT, func() bool {
+				if k.count(f.who, "respond.posted") > 0 {
+					return true
+				}
+				if inUfsOpen() > before {
+					f.parked = true
+					return true
+				}
+				return false
+			})
+			if !ok {
+				return &hangError{"Topen of a FIFO neither blocked nor was answered"}
+			}
+		}
+		// FIFO path of each parked open: the walk that bound the fid
+		for _, f := range fl {
+			if f.parked && f.op.Kind == "fifo" {
+				for i := 0; i < seqN; i++ {
+					if hist[i].Kind == "walk" && hist[i].Newfid == f.op.Fid && len(hist[i].Names) == 1 {
+						f.fifo = filepath.Join(root, hist[i].Names[0])
+					}
+				}
+			}
+		}
+		for i := seqN; i < kf-1; i++ {
+			if err := vc.SendRaw(fr[i+1]); err != nil {
+				return &hangError{"harness: " + err.Error()}
+			}
+			waitTags = append(waitTags, uint16(i+1))
+		}
+	}
+	for _, f := range fl {
+		if f.parked {
+			res.effective++
+			res.labels = append(res.labels, "ufs executing at the cut: "+f.op.Kind)
+		}
+	}
+	if len(waitTags) > 0 {
+		res.effective += len(waitTags)
+		res.labels = append(res.labels, fmt.Sprintf("ufs pipelined=%d", len(waitTags)))
+	}
+	if p > 0 {
+		if _, err := end.Write(fr[kf][:p]); err != nil {
+			return &hangError{"harness: " + err.Error()}
+		}
+	}
+	if err := by.probeUfs("before"); err != nil {
+		return err
+	}
+
+	switch c.Kind {
+	case "eof":
+		end.Close()
+	case "half":
+		end.CloseWrite()
+	default:
+		end.FailPeer(errInjected)
+	}
+	if k.wait(connWho(vid), "close.exit", 1, closeWait) {
+		res.labels = append(res.labels, "close finished before the (remaining) requests were released")
+	} else {
+		res.labels = append(res.labels, "close still in progress when the requests were released")
+	}
+	if err := by.probeUfs("during"); err != nil {
+		return err
+	}
+	// release the blocked opens: give each FIFO a writer
+	for _, f := range fl {
+		if !f.parked || f.fifo == "" {
+			continue
+		}
+		var w *os.File
+		waitFor(quiesce, func() bool {
+			var e error
+			w, e = os.OpenFile(f.fifo, os.O_WRONLY|syscall.O_NONBLOCK, 0)
+			return e == nil
+		})
+		k.wait(f.who, "respond.posted", 1, quiesce)
+		if w != nil {
+			w.Close()
+		}
+	}
+
+	tolerantA := hx.IsKnown(FindRespondBlocks) && c.Maxpend == 0
+	var whos []string
+	for _, f := range fl {
+		if f.parked {
+			whos = append(whos, f.who)
+		}
+	}
+	for _, t := range waitTags {
+		whos = append(whos, reqWho(vid, t))
+	}
+	var left []gor
+	var why string
+	okq := waitFor(quiesce, func() bool {
+		if k.count(connWho(vid), "close.exit") == 0 {
+			why = "Conn.close has not finished"
+			return false
+		}
+		nstuck := 0
+		for _, w := range whos {
+			if k.count(w, "respond.unlinked") > 0 {
+				continue
+			}
+			if k.count(w, "respond.posted") > 0 && k.count(w, "respond.queued") == 0 {
+				nstuck++
+				if tolerantA {
+					continue
+				}
+			}
+			why = "request " + w + " has not completed"
+			return false
+		}
+		left = left[:0]
+		stuckG := 0
+		for id, g := range libGors() {
+			if _, old := g1[id]; old {
+				continue
+			}
+			left = append(left, g)
+			if g.stuckInRespondSend() {
+				stuckG++
+			}
+		}
+		if len(left) == 0 || (tolerantA && stuckG == len(left) && stuckG == nstuck) {
+			return true
+		}
+		why = "goroutines still serve the connection"
+		return false
+	})
+	allowed := map[int]gor{}
+	for id, g := range g0 {
+		allowed[id] = g
+	}
+	if !okq {
+		var gs []string
+		onlyA := true
+		n := 0
+		for id, g := range libGors() {
+			if _, old := g1[id]; !old {
+				gs = append(gs, short(g))
+				n++
+				if !g.stuckInRespondSend() {
+					onlyA = false
+				}
+			}
+		}
+		sort.Strings(gs)
+		msg := fmt.Sprintf("ufs: %v after the disconnect and after all %d executing requests were released: %s; goroutines left: %s", quiesce, res.effective, why, strings.Join(gs, " | "))
+		if onlyA && n > 0 {
+			msg += fmt.Sprintf(" [signature %s: reply queue %d deep, writer gone]", FindRespondBlocks, c.Maxpend)
+		}
+		return errors.New(msg)
+	}
+	if len(left) > 0 {
+		hx.Known(FindRespondBlocks, fmt.Sprintf("ufs, Maxpend=0: %d request(s) answered after the writer had stopped: left in (*SrvReq).Respond [chan send]", len(left)))
+		for _, g := range left {
+			allowed[g.id] = g
+		}
+	}
+
+	// ---- the descriptor oracle
+	var fds []string
+	if !waitFor(quiesce, func() bool { fds = fdsInto(root); return len(fds) == 0 }) {
+		msg := fmt.Sprintf("ufs: the victim is gone but %d descriptor(s) still point into the exported tree: %v (open before the cut: %d; requests executing at the cut: %d)", len(fds), fds, res.openFds, res.effective)
+		if hx.IsKnown(FindCloseVsInflight) && res.effective > 0 && len(fds) <= res.effective {
+			hx.Known(FindCloseVsInflight, msg)
+		} else {
+			return errors.New(msg)
+		}
+	}
+	if n := connCount(&u.Srv); n != 1 {
+		return fmt.Errorf("ufs: the server still lists %d connections after the victim's disconnect (want 1: the bystander)", n)
+	}
+	if err := by.probeUfs("after"); err != nil {
+		return err
+	}
+	if err := by.alive(); err != nil {
+		return err
+	}
+	by.C.Close()
+	var leftBy []string
+	okb := waitFor(quiesce, func() bool {
+		if k.count(connWho(by.id), "close.exit") == 0 {
+			return false
+		}
+		leftBy = shorts(libGors(), allowed)
+		return len(leftBy) == 0
+	})
+	if !okb {
+		return fmt.Errorf("ufs: %v after the bystander's own disconnect: goroutines left: %s", quiesce, strings.Join(leftBy, " | "))
+	}
+	if n := connCount(&u.Srv); n != 0 {
+		return fmt.Errorf("ufs: the server still lists %d connections after both disconnected", n)
+	}
+	return nil
+}
+
+// inUfsOpen counts goroutines that are inside (*Ufs).Open in a system call.
+func inUfsOpen() int {
+	n := 0
+	for _, g := range dumpAll() {
+		if !strings.HasPrefix(g.state, "syscall") {
+			continue
+		}
+		for _, f := range g.funcs {
+			if strings.HasPrefix(f, libPrefix+"(*Ufs).Open(") {
+				n++
+				break
+			}
+		}
+	}
+	return n
+}
+
+// ---------------------------------------------------------------------------
+
+func genUfsCase(t *rapid.T) *Case {
+	c := &Case{
+		Variant: "ufs",
+		Dotu:    rapid.Bool().Draw(t, "dotu"),
+		Maxpend: rapid.SampledFrom([]int{0, 16}).Draw(t, "maxpend"),
+		Kind:    rapid.SampledFrom([]string{"eof", "eof", "err", "err", "half"}).Draw(t, "cutkind"),
+	}
+	c.Ops = append(c.Ops, UOp{Kind: "attach", Fid: 0})
+	n := rapid.IntRange(1, 7).Draw(t, "nobj")
+	var flights []UOp
+	for j := 1; j <= n; j++ {
+		fid := uint32(j)
+		what := rapid.SampledFrom([]string{"file", "file", "file", "dir", "dir", "create", "fifo", "late"}).Draw(t, "what")
+		switch what {
+		case "file":
+			path := rapid.SampledFrom(uFiles).Draw(t, "path")
+			c.Ops = append(c.Ops, UOp{Kind: "walk", Fid: 0, Newfid: fid, Names: strings.Split(path, "/")},
+				UOp{Kind: "open", Fid: fid, Mode: rapid.SampledFrom([]uint8{0, 1, 2}).Draw(t, "mode")})
+			if rapid.Bool().Draw(t, "rd") {
+				c.Ops = append(c.Ops, UOp{Kind: "read", Fid: fid, Count: 64})
+			}
+		case "dir":
+			path := rapid.SampledFrom(append([]string{""}, uDirs...)).Draw(t, "dpath")
+			var names []string
+			if path != "" {
+				names = []string{path}
+			}
+			c.Ops = append(c.Ops, UOp{Kind: "walk", Fid: 0, Newfid: fid, Names: names}, UOp{Kind: "open", Fid: fid, Mode: 0})
+			if rapid.Bool().Draw(t, "rd") {
+				c.Ops = append(c.Ops, UOp{Kind: "read", Fid: fid, Count: 4096})
+			}
+		case "create":
+			d := rapid.SampledFrom(uDirs).Draw(t, "cdir")
+			perm := rapid.SampledFrom([]uint32{0o644, 0x80000000 | 0o755}).Draw(t, "cperm")
+			mode := uint8(1)
+			if perm&0x80000000 != 0 {
+				mode = 0
+			}
+			c.Ops = append(c.Ops, UOp{Kind: "walk", Fid: 0, Newfid: fid, Names: []string{d}},
+				UOp{Kind: "create", Fid: fid, Name: fmt.Sprintf("new%d", j), Perm: perm, Mode: mode})
+		case "fifo":
+			p := uFifos[len(flights)%len(uFifos)]
+			c.Ops = append(c.Ops, UOp{Kind: "walk", Fid: 0, Newfid: fid, Names: []string{p}})
+			flights = append(flights, UOp{Kind: "fifo", Fid: fid, Mode: 0})
+		case "late":
+			path := rapid.SampledFrom(uFiles).Draw(t, "lpath")
+			c.Ops = append(c.Ops, UOp{Kind: "walk", Fid: 0, Newfid: fid, Names: strings.Split(path, "/")})
+			flights = append(flights, UOp{Kind: "late", Fid: fid, Mode: 0})
+		}
+		if (what == "file" || what == "dir") && rapid.IntRange(0, 4).Draw(t, "clunk") == 0 {
+			c.Ops = append(c.Ops, UOp{Kind: rapid.SampledFrom([]string{"clunk", "clunk", "remove"}).Draw(t, "ck"), Fid: fid})
+		}
+	}
+	// at most one blocked open per FIFO, at most 4 requests executing at the cut
+	nfifo := 0
+	for _, f := range flights {
+		if f.Kind == "fifo" {
+			nfifo++
+			if nfifo > len(uFifos) {
+				continue
+			}
+		}
+		if hx.IsKnown(FindCloseVsInflight) && rapid.IntRange(0, 7).Draw(t, "keepBu") > 0 {
+			hx.Excluded(FindCloseVsInflight)
+			continue
+		}
+		c.Ops = append(c.Ops, f)
+	}
+	c.Pipe = rapid.SampledFrom([]int{0, 0, 1, 2, 3}).Draw(t, "pipe")
+	if hx.IsKnown(FindRespondBlocks) && c.Maxpend == 0 && rapid.IntRange(0, 7).Draw(t, "keepAu") > 0 {
+		c.Maxpend = 16
+		hx.Excluded(FindRespondBlocks)
+	}
+	if hx.IsKnown(FindCloseVsInflight) && c.Pipe > 0 && rapid.IntRange(0, 7).Draw(t, "keepBp") > 0 {
+		c.Pipe = 0
+		hx.Excluded(FindCloseVsInflight)
+	}
+	return c
+}
+
+func ufsHistFrames(c *Case) [][]byte {
+	hc := *c
+	hc.Ops = nil
+	for _, o := range c.Ops {
+		if o.Kind != "fifo" && o.Kind != "late" {
+			hc.Ops = append(hc.Ops, o)
+		}
+	}
+	return hc.frames()
+}
+
+// TestPropUfs: one drawn disconnect per Ufs session with many opened files
+// and directories.
+func TestPropUfs(t *testing.T) {
+	hx.Check(t, "ufs", hx.N(60, 800), func(t *rapid.T) {
+		c := genUfsCase(t)
+		c.Cut = drawCut(t, ufsHistFrames(c))
+		if err := execute("ufs", c); err != nil {
+			hx.Failf(t, "ufs", c, "%v", err)
+		}
+	})
+}
+
+// TestEnumUfsPrefixes: every prefix of a drawn Ufs session.
+func TestEnumUfsPrefixes(t *testing.T) {
+	hx.Check(t, "ufs-prefixes", hx.N(1, 12), func(t *rapid.T) {
+		c := genUfsCase(t)
+		total := streamLen(ufsHistFrames(c))
+		for cut := 0; cut <= total; cut++ {
+			for _, kind := range []string{"eof", "err"} {
+				cc := *c
+				cc.Cut, cc.Kind = cut, kind
+				if err := execute("ufs-prefixes", &cc); err != nil {
+					hx.Failf(t, "ufs-prefixes", &cc, "%v", err)
+				}
+			}
+		}
+		hx.ExtraAdd("ufs_sessions_with_every_prefix_cut", 1)
+	})
+}
+
+var _ = time.Second
